@@ -398,3 +398,37 @@ class options(object):
         da.rcParams.clear()
         da.rcParams.update(self.saved)
         return False
+
+
+# ----------------------------------------------------------------------------------------------
+# datasets
+# ----------------------------------------------------------------------------------------------
+
+def build_dataset(dspec, da=None):
+    """Dataset from {"vars": [[name, spec], ...], "attrs": {...}} -- variables are inserted one by one"""
+    da = da or env.import_dimarray()
+    ds = da.Dataset()
+    for name, spec in dspec["vars"]:
+        ds[name] = build(spec)
+    if dspec.get("attrs"):
+        ds.attrs.update(copy.deepcopy(dspec["attrs"]))
+    return ds
+
+
+def snapshot_dataset(ds):
+    return {"keys": list(ds.keys()), "dims": tuple(ds.dims), "labels": [np.asarray(l, dtype=object).tolist() for l in ds.labels],
+            "attrs": copy.deepcopy(dict(ds.attrs)), "vars": {k: snapshot(ds[k]) for k in ds.keys()}}
+
+
+def check_shared_axes(ds, what, sig=None):
+    """C13's invariant: every variable's axis object is the dataset's; dataset dims = union of variable dims"""
+    used = []
+    for k in ds.keys():
+        v = ds[k]
+        for d in v.dims:
+            check(d in ds.dims, "variable-dim-not-in-dataset", {"what": what, "var": k, "dim": d, "ds_dims": list(ds.dims)}, sig)
+            check(v.axes[d] is ds.axes[d], "axis-not-shared", {"what": what, "var": k, "dim": d}, sig)
+            if d not in used:
+                used.append(d)
+        check(len(v.axes) == v.values.ndim and tuple(ax.size for ax in v.axes) == v.values.shape, "variable-malformed", {"what": what, "var": k}, sig)
+    return used
